@@ -127,13 +127,13 @@ example : CleanTag "abc".toList := by
   rcases this with rfl | rfl | rfl <;> decide
 
 /-- `If-Range` with an entity tag (and a `Range` header, `ignore_if_range=False`): the range request
-is processable exactly when the tag — weakness dropped — is the response's tag; dates and the other
-validators are not consulted. -/
+is processable exactly when the tag — weakness dropped — *is* the response's tag (plain equality of
+the unquoted texts since 9be10e4, repaired F11g); dates and the other validators are not consulted. -/
 theorem if_range_etag (r : CondReq) (et e ie v : Str) (w w' : Bool)
     (hr : r.range.isSome = true) (hv : r.ifRange = some v) (hvne : v ≠ [])
     (hd : looksLikeEtag v = true ∨ r.ifRangeDate = none) (hiv : unquoteEtag v = some (ie, w'))
     (hu : unquoteEtag et = some (e, w)) (lm : Option (Int × Nat)) :
-    isResourceModified r (some et) lm false = !(parseEtags (some ie)).contains e := by
+    isResourceModified r (some et) lm false = !(ie == e) := by
   have hve : v.isEmpty = false := by
     cases v with
     | nil => exact absurd rfl hvne
@@ -160,7 +160,7 @@ theorem if_range_quoted_date_regression :
   decide
 
 example : unquoteEtag "W/\"abc\"".toList = some ("abc".toList, true) ∧
-    (parseEtags (some "abc".toList)).contains "abc".toList = true := by decide
+    unquoteEtag "\"abc\"".toList = some ("abc".toList, false) := by decide
 
 /-- `If-Range` with a date: the date replaces `If-Modified-Since` (same `≤`, same one-second
 resolution) when the response has no ETag. -/
@@ -1307,7 +1307,7 @@ theorem inm_star_text (method : Str) (hm : method = "GET".toList ∨ method = "H
   simp [parseEtags, ETags.empty, ETags.truthy]
 
 
-/-! ## If-Range with an entity tag, on header text (known finding F11g) -/
+/-! ## If-Range with an entity tag, on header text (F11g, repaired by 9be10e4) -/
 
 /-- the full-strength reading of "a failed If-Range … yields the complete 200 body" for entity
 tags: `If-Range: "ie"` validates against `ETag: "e"` exactly when `ie = e` -/
@@ -1316,68 +1316,55 @@ def IfRangeEtagFull : Prop :=
     (rangeProcessable { range := some "bytes=0-1".toList, ifRange := some (quoteTag ie) }
         { etag := some (quoteTag e) } = true ↔ ie = e)
 
-/-- Known finding F11g: false. `is_resource_modified` hands the *unquoted* If-Range tag to
-`parse_etags`, a parser of header lists: `If-Range: "*"` is read as the wildcard and validates
-against every ETag (a 206 although the client's validator is not the current one); likewise
-`If-Range: "a, b"` validates against `ETag: "a"`. -/
-theorem if_range_etag_full_false : ¬ IfRangeEtagFull := by
-  intro h
-  have hc1 : CleanTag "*".toList := by
-    intro c hc
-    have : c = '*' := by simpa using hc
-    subst this; decide
-  have hc2 : CleanTag "v2".toList := by
-    intro c hc
-    have : c = 'v' ∨ c = '2' := by simpa using hc
-    rcases this with rfl | rfl <;> decide
-  have := (h "*".toList "v2".toList hc1 hc2 (by decide)).mp (by decide)
-  revert this
-  decide
-
-theorem if_range_etag_list_witness :
-    rangeProcessable { range := some "bytes=0-1".toList, ifRange := some "\"a, b\"".toList }
-      { etag := some "\"a\"".toList } = true := by decide
-
-/-- the exact boundary of F11g: the tag text, handed unquoted to `parse_etags`, reads back as the
-one strong tag it is (decidable for every concrete text) -/
-def SelfParsing (ie : Str) : Prop := parseEtags (some ie) = ⟨[some ie], [], false⟩
-
-instance (ie : Str) : Decidable (SelfParsing ie) := by unfold SelfParsing; infer_instance
-
-/-- every *plain* tag (non-empty, without white space, `,`, `"`, `/`, `*` — every tag werkzeug's
-`generate_etag` / `send_file` produce) is self-parsing; so are e.g. `a b` and `x/y` -/
-theorem plain_self_parsing (ie : Str) (hp : PlainTag ie) : SelfParsing ie := parseEtags_plain ie hp
-
-example : SelfParsing "a b".toList ∧ SelfParsing "x/y".toList ∧ ¬ SelfParsing "*".toList ∧
-    ¬ SelfParsing "a, b".toList ∧ ¬ SelfParsing "W/x".toList ∧ ¬ SelfParsing "".toList := by decide
-
-/-- `_partial`: for an If-Range tag that is self-parsing, `If-Range: "ie"` (or `W/"ie"`) with a
-`Range` header validates against `ETag: "e"` / `W/"e"` exactly when `ie = e`; otherwise the range
-request is not processable (complete 200 body, `failed_if_range_not_range`). Excluded: exactly the
-tag texts `parse_etags` re-interprets (F11g). -/
-theorem if_range_etag_partial (ie : Str) (wi : Bool) (hp : SelfParsing ie) (e : Str) (w : Bool)
-    (rng : Str) (ims inm im : Option Str) (lm : Option Int) :
-    rangeProcessable (mkReqText (some rng) (some (renderTag (ie, wi))) ims inm im)
-        { etag := some (renderTag (e, w)), lastModified := lm } = true ↔ ie = e := by
+/-- Full strength, on header text, for **every** tag text (no hypothesis: `*`, `a, b`, `W/x`, the
+empty tag included): `If-Range: "ie"` (or `W/"ie"`) with a `Range` header validates against
+`ETag: "e"` / `W/"e"` exactly when `ie = e`; otherwise the range request is not processable
+(complete 200 body, `failed_if_range_not_range`) — whatever `If-Modified-Since` / `If-None-Match` /
+`If-Match` / `Last-Modified` say. (Before 9be10e4 the unquoted tag was handed to `parse_etags`,
+which re-read `*` as the wildcard and `a, b` as a list: former known finding F11g.) -/
+theorem if_range_etag_text_iff (q : CondReq) (ie : Str) (wi : Bool) (e : Str) (w : Bool)
+    (hr : q.range.isSome = true) (hv : q.ifRange = some (renderTag (ie, wi))) (lm : Option Int) :
+    rangeProcessable q { etag := some (renderTag (e, w)), lastModified := lm } = true ↔ ie = e := by
   have hl : looksLikeEtag (renderTag (ie, wi)) = true := by
     cases wi <;> simp [renderTag, quoteTag, looksLikeEtag, Py.isSpace]
   have hne : (renderTag (ie, wi)).isEmpty = false := by
     cases wi <;> simp [renderTag, quoteTag]
-  unfold SelfParsing at hp
-  unfold rangeProcessable mkReqText
-  simp only [Option.isNone_some, Bool.false_or, Option.isSome_some, Bool.and_true,
+  unfold rangeProcessable
+  simp only [hv, hr, Option.isNone_some, Bool.false_or, Bool.and_true,
     Bool.not_eq_eq_eq_not, Bool.not_true]
   unfold isResourceModified
-  simp only [Bool.not_false, Option.isSome_some, Bool.and_self, ↓reduceIte, parseIfRangeHeader,
-    Option.map_some, Option.getD_some, hl, parseIfRange, hne, Bool.false_eq_true, unquoteEtag_render,
-    hp, ETags.contains, Bool.false_or, Bool.not_eq_eq_eq_not, Bool.not_false]
-  simp [eq_comm]
+  simp only [Bool.not_false, hr, Bool.and_self, ↓reduceIte, parseIfRangeHeader, hv,
+    Option.map_some, Option.getD_some, hl, parseIfRange, hne, Bool.false_eq_true, unquoteEtag_render]
+  simp
 
-example : PlainTag "abc-123".toList := by
-  refine ⟨by decide, ?_⟩
-  intro c hc
-  have : c = 'a' ∨ c = 'b' ∨ c = 'c' ∨ c = '-' ∨ c = '1' ∨ c = '2' ∨ c = '3' := by simpa using hc
-  rcases this with rfl | rfl | rfl | rfl | rfl | rfl | rfl <;> decide
+/-- … in particular the full-strength statement that F11g refuted now holds. -/
+theorem if_range_etag_full : IfRangeEtagFull := by
+  intro ie e _ _ _
+  exact if_range_etag_text_iff { range := some "bytes=0-1".toList, ifRange := some (quoteTag ie) }
+    ie false e false rfl rfl none
+
+/-- regression inputs of F11g: `If-Range: "*"` no longer validates against `ETag: "v2"`,
+`If-Range: "a, b"` no longer against `ETag: "a"`, `If-Range: "W/*"` not against `ETag: "abc"` — and
+each still validates against the tag with that very text. -/
+theorem if_range_star_regression :
+    rangeProcessable { range := some "bytes=0-1".toList, ifRange := some "\"*\"".toList }
+      { etag := some "\"v2\"".toList } = false ∧
+    rangeProcessable { range := some "bytes=0-1".toList, ifRange := some "\"a, b\"".toList }
+      { etag := some "\"a\"".toList } = false ∧
+    rangeProcessable { range := some "bytes=0-1".toList, ifRange := some "\"W/*\"".toList }
+      { etag := some "\"abc\"".toList } = false ∧
+    rangeProcessable { range := some "bytes=0-1".toList, ifRange := some "\"*\"".toList }
+      { etag := some "\"*\"".toList } = true ∧
+    rangeProcessable { range := some "bytes=0-1".toList, ifRange := some "\"a, b\"".toList }
+      { etag := some "\"a, b\"".toList } = true := by decide
+
+/-- the regression on the whole response: `Range: bytes=0-1` with `If-Range: "*"` against
+`ETag: "abc"` is answered with the complete 200 body -/
+theorem if_range_star_full_body :
+    (respond "GET".toList { range := some "bytes=0-1".toList, ifRange := some "\"*\"".toList }
+        { etag := some "\"abc\"".toList } (some 6) true [[65, 66, 67], [68, 69, 70]] none 0).map
+      (fun o => (o.status, o.contentRange, o.body)) = some (200, none, [[65, 66, 67], [68, 69, 70]]) := by
+  decide
 
 /-! ## the argument forms of `make_conditional` -/
 
